@@ -24,6 +24,7 @@
 #include <netinet/in.h>
 #include <time.h>
 #include <unistd.h>
+#include <valgrind/memcheck.h>
 
 #include <algorithm>
 #include <set>
@@ -138,6 +139,7 @@ static Rng g_frng;
 static unsigned g_fmask = 0;
 static unsigned g_frate[16];
 static long g_late_max_ms = 50;
+static bool g_poison_recv_tail = false;
 static long g_stall_max_ms = 20;
 static uint64_t g_plan_seed = 0, g_entropy_state = 0;
 static std::set<int> *g_fault_fds;
@@ -195,6 +197,7 @@ void fault_scope(uint64_t fseed, unsigned mask) {
 }
 void fault_rate(unsigned kind, unsigned permille) { g_frate[kind_index(kind)] = permille; }
 void fault_late_max_ms(long ms) { g_late_max_ms = ms; }
+void poison_recv_tail(bool on) { g_poison_recv_tail = on; }
 void fault_stall_max_ms(long ms) { g_stall_max_ms = ms > 0 ? ms : 1; }
 static char g_open_prefix[256];
 void fault_open_prefix(const char *p) { strncpy(g_open_prefix, p ? p : "", sizeof(g_open_prefix) - 1); }
@@ -1136,7 +1139,17 @@ ssize_t __wrap_recvfrom(int fd, void *buf, size_t n, int flags, struct sockaddr 
   Ig ig_;
   sched_point();
   ig_.end();
-  return __real_recvfrom(fd, buf, n, flags, a, l);
+  ssize_t r = __real_recvfrom(fd, buf, n, flags, a, l);
+  // The part of the caller's buffer behind the datagram holds nothing that was received.  Make reading it visible: it is
+  // cleared (so that an over-reading name parser finds a terminator and reports what it assembled, which the oracle rejects)
+  // and, under valgrind, marked undefined (manual ASan poisoning would outlive the caller's stack frame).
+  if (g_poison_recv_tail && buf && r >= 0 && (size_t)r < n) {
+    int e = errno;
+    memset(static_cast<char *>(buf) + r, 0, n - (size_t)r);
+    VALGRIND_MAKE_MEM_UNDEFINED(static_cast<char *>(buf) + r, n - (size_t)r);
+    errno = e;
+  }
+  return r;
 }
 
 int __wrap_accept(int fd, struct sockaddr *a, socklen_t *l) {
